@@ -190,7 +190,8 @@ func RunRB(out, out2, mode string) {
 			}
 		}
 		ops = append(ops, bgz.ROp{K: "read", N: 10}, bgz.ROp{K: "readbyte"})
-		bgz.RunReader(t2, bgz.RScenario{Class: "readback", File: f, Truth: truth, CutLen: -1, RD: []int{0, 1, 2, 4}[r.Intn(4)], Ops: ops})
+		bgz.RunReader(t2, bgz.RScenario{Class: "readback", File: f, Truth: truth, CutLen: -1, RD: []int{0, 1, 2, 4}[r.Intn(4)], Ops: ops,
+			SrcKind: []string{"", "", "stream", "bytestream"}[r.Intn(4)]})
 	}
 	if want("plain") {
 		// every single length class, then random scripts, each with wc in {1,2,4} (+0,16 sometimes)
